@@ -59,7 +59,11 @@ func MapRange[M ~map[K]V, K comparable, V any](site string, m M) []Entry[M, K, V
 	sort.SliceStable(idx, func(a, b int) bool { return keys[idx[a]] < keys[idx[b]] })
 	for i := 1; i < len(idx); i++ {
 		if keys[idx[i]] == keys[idx[i-1]] && md == ModeSerial {
-			panic(InfraPanic{fmt.Sprintf("simrt: map keys without a distinct canonical rendering at %s: %q", site, keys[idx[i]])})
+			// two distinct keys that render alike (for example two objects with
+			// the same name): they keep Go's own relative order; counted, because
+			// such a run may not replay exactly
+			Probe("map_keys_render_alike")
+			break
 		}
 	}
 	n := len(idx)
